@@ -33,7 +33,9 @@ def cases(ctx):
     if ctx.thorough: lens += [rng.randrange(5000, 100001) for _ in range(40)] + [100000]
     for ln in lens:
         ctx.count('rmd')
-        yield Case(f'rmd {hx(G.rbytes(rng, ln) if ln > 64 else bytes(rng.getrandbits(8) for _ in range(ln)))}', 'ms', nontrivial=ln >= 56, tag='rmd')
+        # the generated (translated) ripemd160 is run too, interpreted: on the short lengths and a sample of the longer ones
+        kinds = 'gms' if (ln <= 130 or rng.random() < 0.05) else 'ms'
+        yield Case(f'rmd {hx(G.rbytes(rng, ln) if ln > 64 else bytes(rng.getrandbits(8) for _ in range(ln)))}', kinds, nontrivial=ln >= 56, tag='rmd')
     from harness import rmdleaf
     yield from rmdleaf.cases(ctx)
     for _ in range(ctx.n(100, 3000)):
